@@ -5,7 +5,9 @@ Ontology.tla is checked by TLC (masked = property configuration; as-is = code as
 with the named deviation Dev_SelfLoop; interleaved = two concurrent transactions, outside
 the property's quantifier). OntologyGen.tla emits behaviours (every history to a small
 depth, one history per transition of the reachable state graph, random deep histories)
-that are replayed into the real ontology under four identifier concretisations.
+and transaction bursts (several operations on overlapping edges inside one transaction,
+queried inside it and after commit/abort) that are replayed into the real ontology under
+four identifier concretisations and two index-observer wirings (default / production).
 """
 import json
 import os
